@@ -137,10 +137,12 @@ class World:
         self.script = script            # callable(world, tick) run inside every tick hook
         self.tick_log = []              # (tick, snapshot of pools) at every hook
         self.escaped = None
+        self.bytes_from = {}
         stubs_m.Condition.on_wait = lambda cv: self.tick_hook(waiting=True)
         server_mod.sleep = lambda *a, **k: None
 
     def inject(self, raw, addr):
+        self.bytes_from[addr] = self.bytes_from.get(addr, 0) + rope.sx_len(raw)
         self.ts.datagramReceived(raw, addr)
 
     def tick_hook(self, waiting=False):
